@@ -36,6 +36,7 @@ def run(ctx):
     wl_locks.check(ctx, fx, prefix="C03", table=LOCK_TABLE, fn_opts={}, callee_releases={}, family="do_all",
                    floor_fns=12)
     get_steal(ctx, fx)
+    steal_once(ctx, fx)
     worker_loop(ctx, fx)
     pool(ctx, fx)
     on_each(ctx, fx)
@@ -181,6 +182,47 @@ def get_steal(ctx, fx):
                 det.append("%s <- %s (expected %s on every path)" % (fld, vals, src))
         ctx.ob("C03.transfer.same-values", TC + "::assignWork", not det, "; ".join(det), fn.loc(), "assignWork",
                fnkey=f["key"])
+
+
+def steal_once(ctx, fx):
+    """assignWork overwrites the thief's shared range, so a second successful steal before the first stolen range was
+    executed drops that range. After a steal attempt another attempt may only be reached on the path where the first
+    reported failure."""
+    ctx.rule("C03.steal.stop-after-success",
+             "trySteal / stealWithinSocket / stealOutsideSocket: after a steal attempt (stealWithinSocket, stealOutsideSocket, "
+             "transferWork) a further attempt is reachable only through the branch on which the previous attempt's result is "
+             "false; a successful steal returns / leaves the loop without stealing again (the second assignWork would overwrite "
+             "the not yet executed first range)")
+    for qn, callees in ((DA + "::trySteal", ("stealWithinSocket", "stealOutsideSocket")),
+                        (DA + "::stealWithinSocket", ("transferWork",)),
+                        (DA + "::stealOutsideSocket", ("transferWork",))):
+        fs = insts(fx, qn)
+        ctx.floor(qn + " instantiations", len(fs), 3)
+        for f in fs:
+            fn = ctx.fn(f)
+            st = lambda e: e.get("k") == "call" and e.get("name") in callees
+            calls = list(fn.events(st))
+            det = []
+            if not calls:
+                det.append("no steal attempt")
+            for pos, e in calls:
+                holder = None
+                for p2, e2 in fn.events(lambda x: x["k"] in ("assign", "decl")):
+                    src = e2.get("rhs") if e2["k"] == "assign" else e2.get("init")
+                    if src is not None and any(n.get("sid") == e.get("sid") for n in walk(src)):
+                        holder = e2["lp"] if e2["k"] == "assign" else e2["n"]
+                        start = fn.after(p2)
+                if holder is None:
+                    det.append("result of %s dropped at %s" % (e.get("name"), fn.loc(pos).split(":")[-1]))
+                    continue
+                hits, _ = fn.search_tracked([start], stop=st, track={holder})
+                for hp, known in hits:
+                    if known.get(holder) is not False:
+                        det.append("after %s at line %s another steal attempt (line %s) is reachable although the first may have "
+                                   "succeeded" % (e.get("name"), e.get("l"), fn.ev(hp).get("l")))
+            # a reported success reflects a real steal: `return true` only with a true result
+            ctx.ob("C03.steal.stop-after-success", qn, not det, "; ".join(sorted(set(det))[:3]), fn.loc(), "steal",
+                   fnkey=f["key"])
 
 
 def worker_loop(ctx, fx):
